@@ -49,7 +49,9 @@ impl FrameStore {
 
     pub fn get_by_seq(&self, seq: u64) -> Option<&Event> {
         let idx = self.index_of_seq(seq)?;
-        self.frames.get(idx)
+        // The window is addressed by `seq - base_seq`, which is only the right slot when the
+        // pushed seqs are consecutive; never hand back a frame with a different seq.
+        self.frames.get(idx).filter(|event| event.seq == seq)
     }
 
     pub fn iter(&self) -> impl Iterator<Item = &Event> {
